@@ -72,7 +72,7 @@ def build_case(seed):
     stale = False
     extras = {}
     for step in rest:
-        if step[0] == "addr":
+        if step[0] in ("addr", "updr", "delr"):
             # a file cannot add regions: the generator's classification of later arcs against
             # this region is void (they become unclassified, i.e. outside the T1 model's scope)
             stale = True
@@ -117,6 +117,10 @@ def run_case(case, trace_id):
                 event = rig.gcode(step[1], step[2])
             elif step[0] == "at":
                 event = rig.at(step[1], step[2], step[3])
+            elif step[0] == "updr":
+                event = rig.update_region(step[1])
+            elif step[0] == "delr":
+                event = rig.delete_region(step[1])
             else:
                 event = rig.add_region(step[1])
             if rig is live:
